@@ -248,7 +248,14 @@ func runPoolStress(r *rng, size, nsub, rounds, perRound int) PStress {
 				}()
 			}
 			subs.Wait() // every Submit of this round has returned
-			pool.Wait()
+			waited := make(chan struct{})
+			go func() { pool.Wait(); close(waited) }()
+			select {
+			case <-waited:
+			case <-time.After(20 * time.Second):
+				o.Barrier = false // Wait never returned
+				return
+			}
 			// barrier: everything submitted so far has finished, with its plain writes visible
 			for id := 0; id < (round+1)*nsub*perRound; id++ {
 				if atomic.LoadInt32(&counts[id]) != 1 || plain[id] != id+1 {
